@@ -10,6 +10,7 @@ import (
 // VerifKeyInfo describes a cached key at a hook point.
 type VerifKeyInfo struct {
 	Ptr     string
+	Secret  string // %p of the underlying securememory.Secret
 	Refs    int64
 	Created int64
 	Revoked bool
@@ -41,7 +42,7 @@ func verifHook(point string, arg any) {
 	switch v := arg.(type) {
 	case *cachedCryptoKey:
 		if v != nil {
-			arg = VerifKeyInfo{Ptr: fmt.Sprintf("%p", v.CryptoKey), Refs: v.refs.Load(), Created: v.Created(), Revoked: v.Revoked()}
+			arg = VerifKeyInfo{Ptr: fmt.Sprintf("%p", v.CryptoKey), Secret: fmt.Sprintf("%p", v.VerifSecret()), Refs: v.refs.Load(), Created: v.Created(), Revoked: v.Revoked()}
 		}
 	case *envelopeEncryption:
 		arg = fmt.Sprintf("%p", v)
